@@ -124,4 +124,20 @@ example : hullInterp (shiftPts 7 [(0, 2), (1, 0), (2, 3), (4, 1), (5, 4)]) [true
 /-- the guard of the shift law is needed only because the model totalises `np.interp` on an empty sample list -/
 example : hullInterp (shiftPts 7 [(0, 2)]) [false] ≠ (hullInterp [(0, 2)] [false]).map (· + 7) := by decide +kernel
 
+/-- `segments`: `rubberband` takes the hull of each segment separately, marks all their vertices in ONE mask and calls
+`np.interp` once over the whole mask.  The last point of a segment and the first point of the next are hull vertices
+(the certificate demands both ends), so the baseline is the concatenation of the per-segment interpolants — each of which
+the theorems above describe.  (Two segments; any number follows by repeating the split.) -/
+theorem rubberband_segments_interp (A B : List (Rat × Rat)) (mA mB : List Bool) (hx : XInc (A ++ B))
+    (hlen : mA.length = A.length) (hA : 0 < A.length) (hlastA : mA.getD (A.length - 1) false = true)
+    (hB : 0 < B.length) (hfirstB : mB.getD 0 false = true) :
+    hullInterp (A ++ B) (mA ++ mB) = hullInterp A mA ++ hullInterp B mB :=
+  hullInterp_append A B mA mB hx hlen hA hlastA hB hfirstB
+example : isLowerHull [(0, 2), (1, 0), (2, 3)] [true, true, true] = true ∧
+    isLowerHull [(4, 1), (5, 4), (6, 3)] [true, false, true] = true ∧
+    hullInterp ([(0, 2), (1, 0), (2, 3)] ++ [(4, 1), (5, 4), (6, 3)]) ([true, true, true] ++ [true, false, true])
+      = [2, 0, 3, 1, 2, 3] ∧
+    isLowerHull ([(0, 2), (1, 0), (2, 3)] ++ [(4, 1), (5, 4), (6, 3)]) ([true, true, true] ++ [true, false, true]) = false := by
+  decide +kernel
+
 end PbVerif.C14
